@@ -1385,3 +1385,32 @@ async fn d35_table_without_filter_panics_on_reopen_with_filter_policy() {
 	assert!(r.is_ok(), "D35: reopening with the default filter policy PANICS on a table that was written without a filter");
 	assert!(r.unwrap().is_ok(), "D35: reopening fails");
 }
+
+// D36: the WAL clean-up scheduled by a flush captures its bound (`flushed wal_number + 1`) when it is SPAWNED.  If a restore
+// rewinds the WAL numbering before the task runs, the stale task deletes the rewound, now ACTIVE segment: commits made
+// after the restore go to an unlinked file and are gone at the next open.  Deterministic on a current-thread runtime.
+#[tokio::test]
+async fn d36_stale_wal_cleanup_task_deletes_the_active_segment_after_restore() {
+	let d = td();
+	let ck = td();
+	let opts = mk_opts(d.path().to_path_buf(), |o| o.flush_on_close = false);
+	let tree = Tree::new(Arc::clone(&opts)).unwrap();
+	put(&tree, b"k1", b"v1").await;
+	tree.flush().unwrap();
+	tree.create_checkpoint(ck.path()).unwrap();
+	for i in 0..4 {
+		put(&tree, format!("later-{i}").as_bytes(), b"x").await;
+		tree.flush().unwrap(); // the last flush's clean-up task is spawned but has not run yet (nothing awaited since)
+	}
+	tree.restore_from_checkpoint(ck.path()).unwrap(); // synchronous: the stale task is still pending
+	put(&tree, b"after-restore", b"acknowledged").await;
+	tree.flush_wal(true).unwrap();
+	tokio::task::yield_now().await;
+	// crash image
+	let img = td();
+	d29_copy_dir(d.path(), img.path());
+	let t2 = Tree::new(mk_opts(img.path().to_path_buf(), |o| o.flush_on_close = false)).unwrap();
+	assert_eq!(t2.begin().unwrap().get(b"k1").unwrap().as_deref(), Some(&b"v1"[..]));
+	assert_eq!(t2.begin().unwrap().get(b"after-restore").unwrap().as_deref(), Some(&b"acknowledged"[..]),
+		"D36: the commit acknowledged after the restore is gone (its WAL segment was deleted by a clean-up task of the discarded timeline)");
+}
